@@ -6,6 +6,7 @@ P3 wrappers: buffer_end, lengths, NUL, '-', value handed to convert; dispatchers
    negative variant exactly for value < 0 and the width by sizeof"""
 import os
 
+from ..rules import object_of, call_args
 from ..digits import Machine, Lossy, Sym, Return, Unsupported, length_partition, UINT_BITS, SINT_BITS, base_type
 from ..facts import VERIF, load_program, units_matching, children, strip_all_casts, walk, CALL_KINDS, \
     AnalysisBroken
@@ -95,6 +96,40 @@ def p2p3(chk, prog, lens):
                         chk.check(False, 'P2', f.name, 'the conversion keeps no state between calls (no non-const '
                                   'function-local static)', f.loc(x), 'static %s %s is shared by all callers: the '
                                   'result is not a function of the argument alone' % (d.get('t'), d.get('name')))
+    # ... and the pointer into the result string that the digits are written through stays valid: between taking a
+    # pointer to an element of a local std::string and the end of the function no member that may reallocate or move
+    # the characters (insert, append, push_back, resize, reserve, erase, assign, +=, clear, shrink_to_fit) is called
+    # on that string - beyond the small-string capacity the digits would go into freed memory
+    REALLOC = ('insert', 'append', 'push_back', 'resize', 'reserve', 'erase', 'assign', 'operator+=', 'clear',
+               'shrink_to_fit', 'replace', 'operator=', 'swap')
+    for f in prog.functions:
+        if '/format/detail/' not in f.file or f.body is None:
+            continue
+        strings = {d['name']: d.get('did') for x in f.walk() if x.get('k') == 'DeclStmt' for d in x.get('decls', [])
+                   if 'basic_string' in (d.get('t') or '') and not (d.get('t') or '').rstrip().endswith('&')}
+        if not strings:
+            continue
+        for x in f.walk():
+            for d in (x.get('decls', []) if x.get('k') == 'DeclStmt' else []):
+                t = (d.get('t') or '')
+                init = d.get('init')
+                if not (t.rstrip().endswith('*') or t.rstrip().endswith('*const')) or not isinstance(init, dict):
+                    continue
+                src = [n_ for n_ in strings if any(y.get('k') == 'DeclRefExpr' and y['ref'].get('name') == n_
+                                                   for y in walk(init))]
+                if not src or f.cfg.position(x) is None:
+                    continue
+                pos = f.cfg.position(x)
+                seen = f.cfg.reach((pos[0], pos[1] + 1))
+                for c in f.calls():
+                    if c.get('k') in ('CXXMemberCallExpr', 'CXXOperatorCallExpr') and \
+                            ((c.get('callee') or '').split('::')[-1] in REALLOC) and f.cfg.position(c) in seen:
+                        obj = object_of(c) if c.get('k') == 'CXXMemberCallExpr' else (call_args(c)[0] if call_args(c) else None)
+                        if obj is not None and any(y.get('k') == 'DeclRefExpr' and y['ref'].get('name') in src
+                                                   for y in walk(obj)):
+                            chk.check(False, 'P2', f.name, 'the pointer into the result string stays valid until the '
+                                      'digits are written', f.loc(c), '%s() on %s after the pointer %s was taken: the '
+                                      'string may reallocate' % ((c.get('callee') or '').split('::')[-1], src[0], d['name']))
     for f in prog.functions:
         if '/format/detail/' in f.file and f.body is not None:
             for y in assert_side_effects(f):
